@@ -704,6 +704,33 @@ class _SynthReader(pb.readers.BaseReader):
 
 def leap_case(case, res):
     """A stream that runs through the leap second at the end of 2016: positions are counted in elapsed time."""
+    # a reader WITHOUT a start time (the base class's default): relative times still round-trip, absolute ones are refused
+    for rate, n in ((1 * u.kHz, 5000), (2.5 * u.Hz, 400), ((1e6 / 3) * u.Hz, 100000)):
+        r0 = _SynthReader(n, rate, None)
+        srv = rate.to_value(u.Hz)
+        for k in (0, 1, n // 3, n - 1, n):
+            res.transitions += 3
+            res.state(("no start", str(rate), k))
+            for unit in (u.s, u.ms):
+                try:
+                    tk = r0.time_at(k, unit=unit)
+                    back = r0.offset_at(tk)
+                except Exception as e:
+                    res.violation("no start time|relative time raised", f"k={k} at {rate}, unit={unit}: {type(e).__name__}: {e}", case,
+                                  {"k": k, "rate": str(rate)})
+                    continue
+                if not isinstance(tk, u.Quantity) or abs(tk.to_value(u.s) - k / srv) > 1e-9 * max(1.0, k / srv) or back != k:
+                    res.violation("no start time|relative time", f"time_at({k}, unit={unit}) = {tk!r}, offset_at of it = {back!r} "
+                                  f"(expected {k / srv!r} s and {k}) at {rate}", case, {"k": k, "rate": str(rate)})
+            if k < n:
+                try:
+                    z0 = r0.read(k, min(3, n - k))
+                    if z0.start_time is not None or len(z0) != min(3, n - k) or float(np.asarray(z0.data)[0]) != k:
+                        res.violation("no start time|read", f"read({k}, ..) gives start_time {z0.start_time!r}, first sample "
+                                      f"{np.asarray(z0.data)[:1]!r}", case, {"k": k})
+                except Exception as e:
+                    res.violation("no start time|read raised", f"{type(e).__name__}: {e}", case, {"k": k})
+        res.hits["reader without a start time"] += 1
     # (also rates that are not a whole number of Hz, on an ordinary day, over many seconds)
     for rate, t0, n in ((1 * u.kHz, "2016-12-31T23:59:30", 90000), (1 * u.MHz, "2016-12-31T23:59:59.5", 3000000),
                         (2 * u.Hz, "2016-12-31T12:00:00", 100000), (2.5 * u.Hz, "2021-03-04T05:06:07", 5000),
@@ -839,7 +866,7 @@ def main(argv=None):
         required_hits=["out-of-range time rejected", "out-of-range read rejected", "adjacent reads join", "known payload verified",
                        "same read repeated in a history", "numpy integer offsets", "time given on another scale", "dask read split into several time chunks", "mask argument modified by the caller afterwards", "stream running through a leap second", "two-dimensional sideband mask", "reader on the documented hook signature, chunks=",
                        "file names whose sorted order is not their time order", "schedules explored", "schedules with a preemption",
-                       "two readers in one graph", "free-running pass"],
+                       "two readers in one graph", "free-running pass", "reader without a start time"],
         assumptions=["thread interleavings are explored at Python-line granularity inside pulsarbat/readers/*.py and utils.py; code in "
                      "baseband/numpy runs atomically between two such lines; real parallelism inside C code is not modelled",
                      "the free-running pass is a smoke run, not coverage", "Hilbert-converted values are compared for n <= 48 "
